@@ -1,4 +1,5 @@
 """C33 - The incremental executor memoizes and invalidates exactly."""
+import os
 from inclib import *
 
 ID = "C33"
@@ -19,6 +20,10 @@ ASSUMPTIONS = ["queries are deterministic functions of their own input and of wh
                "the values theorems need an acyclic dependency function (a rank that every dependency decreases); cyclic graphs are C34"]
 
 ALPH_CACHE = {}
+# histories in which the key given to EvictWithCleanup has no task yet when the call starts and the in-flight Run creates it:
+# the pinned tree looked the tasks up BEFORE taking the dirty lock and lost such an eviction (repaired by /repo commit d302b87a;
+# fixes/C33-evict-lookup-under-lock.diff); the stratum is on by default, VERIF_C33_PRELOCK=0 turns it off
+PRELOCK_LOOKUP_CASES = os.environ.get("VERIF_C33_PRELOCK", "1") == "1"
 
 
 def alphabet(n):
@@ -68,6 +73,38 @@ def run(ctx):
             cases.append(mk_case(4, deps, [{"op": "run", "keys": [0]}, {"op": "edit", "keys": [3], "vals": [9]},
                                            {"op": "par", "runs": [[0], [1]], "delays_us": [0, 0]},
                                            {"op": "evict", "keys": [2]}, {"op": "run", "keys": [0, 1, 2, 3]}], par))
+    # Evict / Edit issued WHILE a Run is in flight (it has to wait for the dirty lock; the input changes inside the cleanup of
+    # EvictWithCleanup): a gated query of the Run is parked inside Execute, before or after the Resolve call that makes it a
+    # dependent of the evicted key; afterwards everything is run again and must be fresh
+    nev0 = len(cases)
+    cases.append(mk_case(2, [[[1]], []], [{"op": "run", "keys": [1]},
+                                          {"op": "evrun", "keys": [0], "evict": [1], "vals": [2], "gate": 0, "gate_group": 0},
+                                          {"op": "run", "keys": [0, 1]}], 2, inputs=[0, 1]))
+    ev_graphs = [(n, deps) for n in (2, 3) for deps in all_dags(n)]
+    for _ in range(ctx.budget(20, 2000)):
+        n = rng.range(3, 6)
+        ev_graphs.append((n, random_dag(rng, n, rng.range(30, 80))))
+    for n, deps in ev_graphs:
+        for g in range(n):
+            for gi, grp in enumerate(deps[g]):
+                for k in grp:
+                    # k (and what it needs) is memoized first; g is not: it executes during the gated Run
+                    targets = [k] + ([d for d in sorted(reach(deps, [k]) - {k})][:1])
+                    for ek in targets:
+                        for gate_group in (gi, len(deps[g])):
+                            pre = [k] if PRELOCK_LOOKUP_CASES and rng.chance(1, 2) and ek != k else sorted(set([k, ek]))
+                            ops = [{"op": "run", "keys": pre},
+                                   {"op": "evrun", "keys": rng.choice([[g], list(range(n))]), "evict": [ek], "vals": [500 + 3 * ek],
+                                    "gate": g, "gate_group": gate_group},
+                                   {"op": "run", "keys": list(range(n))}]
+                            if rng.chance(1, 4):
+                                ops[1].pop("vals")
+                            cases.append(mk_case(n, deps, ops, rng.range(1, 3)))
+    if PRELOCK_LOOKUP_CASES:
+        # the evicted key has no task yet when EvictWithCleanup is called; the in-flight Run creates and computes it afterwards
+        cases.append(mk_case(2, [[[1]], []], [{"op": "evrun", "keys": [0], "evict": [1], "vals": [2], "gate": 0, "gate_group": 0},
+                                              {"op": "run", "keys": [0, 1]}], 2, inputs=[0, 1]))
+    nev1 = len(cases)
     # random larger DAGs with several Resolve calls per query, jitter inside the queries and at the yield hooks
     for _ in range(ctx.budget(300, 40000)):
         n = rng.range(3, 8)
@@ -77,7 +114,10 @@ def run(ctx):
     ctx.rule = ("dependency DAGs of counting queries x histories of Run / two overlapping Runs / Evict / Edit(input change + Evict): "
                 "every DAG on <= 3 keys x every history of <= %d operations over the alphabet {Run k, Run all, 2 overlapping Runs, "
                 "Evict k, Edit k} x parallelism {1,2%s} followed by Run of every key; every DAG on 4 keys x one mixed history; random "
-                "DAGs on 3..8 keys with 1..3 Resolve calls per query, random histories, schedule jitter; distinct = distinct "
+                "DAGs on 3..8 keys with 1..3 Resolve calls per query, random histories, schedule jitter; for every dependency edge g -> k "
+                "of every DAG on <= 3 keys and of random DAGs on 3..6 keys: Run of k, then Evict/Edit of k (or of a key k needs) issued "
+                "while a Run is in flight whose query g is parked before / after the Resolve call that reaches k, then Run of every key; "
+                "distinct = distinct "
                 "(graph, inputs, history, parallelism); non-trivial = at least one dependency edge and at least two operations; "
                 "the specification oracle runs on every history, the model (in coqc) on %s"
                 % (L, "" if ctx.tier == "quick" else ",3", "every 4th" if ctx.tier == "quick" else "every one"))
@@ -95,7 +135,9 @@ def run(ctx):
             continue
         for key, what in oracle(c, o):
             ctx.violation(key, what, {"input": c, "observed": o})
-        t = coq_case(c, o) if (ci < len(corpus) or ci % stride == 0) else None
+        if nev0 <= ci < nev1:
+            ctx.hist["evict-during-run"] = ctx.hist.get("evict-during-run", 0) + 1
+        t = coq_case(c, o) if (ci < len(corpus) or ci % stride == 0 or ci == nev0) else None
         if t is not None:
             terms.append(t)
             meta.append((c, o))
